@@ -175,16 +175,26 @@ func main() {
 		finish()
 		return
 	}
-	// single-case replay
+	// single-case replay: only the named record is executed
+	replayOnly := false
 	for i, a := range os.Args {
 		if a == "--replay" && i+1 < len(os.Args) {
 			e.loadRepro(os.Args[i+1])
-			for _, s := range e.seeds {
-				s.Quick = s.Origin == "replay"
-			}
+			replayOnly = true
 		}
 	}
-	e.loadReproDir()
+	if replayOnly {
+		var keep []*Seed
+		for _, s := range e.seeds {
+			if s.Origin == "replay" || s.Origin == "regression corpus" {
+				s.Idx = len(keep)
+				keep = append(keep, s)
+			}
+		}
+		e.seeds = keep
+	} else {
+		e.loadReproDir()
+	}
 	e.enumerate()
 	e.writeManifest()
 	if os.Getenv("C11_LIST") != "" {
